@@ -80,6 +80,25 @@ func c14Exec(r *Run) {
 			return
 		}
 	}
+	// (d) crash inside a block (after BeginBlock, between two transactions, after EndBlock):
+	// nothing of the block is durable, the node restarts and executes the block again
+	if nb > 2 {
+		crashes := map[int64]int{}
+		ncr := 3
+		if r.Tier == "thorough" {
+			ncr = 8
+		}
+		for i := 0; i < ncr; i++ {
+			h := 2 + p.Int63n(nb-1)
+			ntx := len(r.Chain.Blocks[h-1].Txs)
+			crashes[h] = p.Intn(ntx+2) - 1
+		}
+		st.Restarts += len(crashes)
+		r.Fault("crash_inside_block")
+		if !check(ReplicaOpts{CrashAt: crashes, Name: "crash-mid-block"}, fmt.Sprintf("replica crashed inside blocks %v (after that many transactions) and restarted", crashes)) {
+			return
+		}
+	}
 	// (c) several restarts in one history
 	if nb > 3 {
 		hs := map[int64]bool{}
@@ -121,6 +140,15 @@ func c08Exec(r *Run) {
 			o.RestartAfter = map[int64]bool{1 + p.Int63n(nb-1): true, 1 + p.Int63n(nb-1): true}
 			st.Restarts += 2
 			r.Fault("replica_restart")
+		}
+		if i == std-1 && i >= 1 && nb > 2 {
+			// the last standard replica also crashes inside two blocks
+			o.CrashAt = map[int64]int{}
+			for j := 0; j < 2; j++ {
+				h := 2 + p.Int63n(nb-1)
+				o.CrashAt[h] = p.Intn(len(r.Chain.Blocks[h-1].Txs)+2) - 1
+			}
+			r.Fault("replica_crash_inside_block")
 		}
 		switch os.Getenv("EXOSIM_C08_MODE") {
 		case "restart":
@@ -177,7 +205,7 @@ func c08Plan(p *PRNG, cfg Config, tier string) Plan {
 func init() {
 	Register(&PropSpec{
 		ID: "C14", Level: "fault_enumeration",
-		Rule: "case = C12 oracle history (validator-set changes at epoch ends, several feeders at different phases, finalised / failed / force-sealed rounds) executed once on a node that never stops; the recorded blocks are then re-executed on fresh nodes over their own database with the process-level oracle state cleared at every restart: one replica restarted after EVERY committed block, single-restart replicas (quick: 4 random heights; thorough: every height of the history), and one replica with several restarts; app hash, every DeliverTx result (code, data, gas), validator updates and consensus-param updates must be identical at every later height; non-trivial = history with >= 5 accepted submissions, >= 20 blocks and >= 6 restart points",
+		Rule: "case = C12 oracle history (validator-set changes at epoch ends, several feeders at different phases, finalised / failed / force-sealed rounds) executed once on a node that never stops; the recorded blocks are then re-executed on fresh nodes over their own database with the process-level oracle state cleared at every restart: one replica restarted after EVERY committed block, single-restart replicas (quick: 4 random heights; thorough: every height of the history), one replica with several restarts, and one replica that crashes INSIDE blocks (after BeginBlock, between two transactions, or after EndBlock before Commit; quick: 3 blocks, thorough: 8) so that the partial execution is lost and the block is executed again; app hash, every DeliverTx result (code, data, gas), validator updates and consensus-param updates must be identical at every later height; non-trivial = history with >= 5 accepted submissions, >= 20 blocks and >= 6 restart points",
 		Assumptions: []string{"a clean stop after a committed block loses exactly the process memory; the database (MemDB behind the dbm.DB seam) keeps everything committed", "replicas are executed one after another in one OS process; the oracle's package-level variables are reset to the fresh-process state at each (re)start (verif hook VerifResetOnce + exported Reset* functions)"},
 		QuickRuns:   160, ThoroughRuns: 1500,
 		GenConfig: oracleConfig,
@@ -194,7 +222,7 @@ func init() {
 	})
 	Register(&PropSpec{
 		ID: "C08", Level: "exploration",
-		Rule: "case = the richest transaction mix (all ledger operations, operator lifecycle, native delegation, parameter updates, replays, oracle submissions from several validators on several feeders, downtime slashing, evidence, epoch ends); the recorded block sequence is re-executed by 2 (quick) / 5 (thorough) independent application instances in the same process (every execution draws fresh Go map iteration orders), some with restarts and CheckTx noise between blocks; app hash, DeliverTx code/data/gas, validator updates and consensus-param updates must be byte-identical at every height; non-trivial = >= 20 blocks, >= 20 successful txs and >= 2 replicas compared",
+		Rule: "case = the richest transaction mix (all ledger operations, operator lifecycle, native delegation, parameter updates, replays, oracle submissions from several validators on several feeders, downtime slashing, evidence, epoch ends); the recorded block sequence is re-executed by 2 (quick) / 5 (thorough) independent application instances in the same process (every execution draws fresh Go map iteration orders), some with restarts, CheckTx noise between blocks and crashes inside blocks (partial execution lost, block executed again); app hash, DeliverTx code/data/gas, validator updates and consensus-param updates must be byte-identical at every height; non-trivial = >= 20 blocks, >= 20 successful txs and >= 2 replicas compared",
 		Assumptions: []string{"Go randomises map iteration per range statement, so in-process replicas sample iteration schedules; independent OS processes are exercised by the determinism self-test", "the harness itself is deterministic (selftest)"},
 		QuickRuns:   200, ThoroughRuns: 3000,
 		GenConfig: func(p *PRNG, tier string) Config {
